@@ -241,6 +241,117 @@ struct atomic {
   }
 };
 
+// ---- heartbeat pointers (IDManager / EpochManager) -------------------------------------------
+// implemented in sched.cpp
+void hb_pseudo(const char *name, const void *addr, uint64_t rd, uint64_t wr);
+void hb_yield();
+
+template <class T>
+struct hb_weak_ptr;
+template <class T>
+using real_weak_ptr = std::weak_ptr<T>;
+
+template <class T>
+struct hb_shared_ptr {
+  std::shared_ptr<T> p_;
+
+  constexpr hb_shared_ptr() noexcept = default;
+  explicit hb_shared_ptr(std::shared_ptr<T> p) : p_{std::move(p)} {}
+  hb_shared_ptr(const hb_shared_ptr &) = default;
+  hb_shared_ptr(hb_shared_ptr &&o) noexcept : p_{std::move(o.p_)} {}
+  hb_shared_ptr &
+  operator=(const hb_shared_ptr &o)
+  {
+    if (this != &o) {
+      drop();
+      p_ = o.p_;
+    }
+    return *this;
+  }
+  hb_shared_ptr &
+  operator=(hb_shared_ptr &&o) noexcept
+  {
+    if (this != &o) {
+      drop();
+      p_ = std::move(o.p_);
+    }
+    return *this;
+  }
+  ~hb_shared_ptr() { drop(); }
+
+  // the death of the last owner is a scheduling point: the heartbeat expires here
+  void
+  drop() noexcept
+  {
+    if (p_ && p_.use_count() == 1) {
+      hb_yield();
+      const uint64_t v = static_cast<uint64_t>(*p_);
+      p_.reset();
+      hb_pseudo("hb.expire", nullptr, v, v);
+    } else {
+      p_.reset();
+    }
+  }
+  void reset() noexcept { drop(); }
+  long use_count() const noexcept { return p_.use_count(); }
+  T &operator*() const noexcept { return *p_; }
+  T *operator->() const noexcept { return p_.get(); }
+  T *get() const noexcept { return p_.get(); }
+  explicit operator bool() const noexcept { return static_cast<bool>(p_); }
+};
+
+template <class T>
+struct hb_weak_ptr {
+  std::weak_ptr<T> w_;
+
+  constexpr hb_weak_ptr() noexcept = default;
+  hb_weak_ptr(const hb_shared_ptr<T> &s) noexcept : w_{s.p_} {}  // NOLINT
+  hb_weak_ptr(const hb_weak_ptr &) = default;
+  hb_weak_ptr(hb_weak_ptr &&) noexcept = default;
+  ~hb_weak_ptr() = default;
+
+  // publishing a heartbeat into a slot and looking at a slot are scheduling points
+  hb_weak_ptr &
+  operator=(const hb_weak_ptr &o)
+  {
+    hb_yield();
+    w_ = o.w_;
+    hb_pseudo("hb.assign", this, 0, w_.expired() ? 0 : 1);
+    return *this;
+  }
+  hb_weak_ptr &
+  operator=(hb_weak_ptr &&o) noexcept
+  {
+    hb_yield();
+    w_ = std::move(o.w_);
+    hb_pseudo("hb.assign", this, 0, w_.expired() ? 0 : 1);
+    return *this;
+  }
+  bool
+  expired() const noexcept
+  {
+    hb_yield();
+    const bool e = w_.expired();
+    hb_pseudo("hb.expired", this, e ? 1 : 0, e ? 1 : 0);
+    return e;
+  }
+  hb_shared_ptr<T> lock() const noexcept { return hb_shared_ptr<T>{w_.lock()}; }
+  long use_count() const noexcept { return w_.use_count(); }
+  void reset() noexcept { w_.reset(); }
+};
+
+template <class T, class... Args>
+hb_shared_ptr<T>
+hb_make_shared(Args &&...args)
+{
+  return hb_shared_ptr<T>{std::make_shared<T>(std::forward<Args>(args)...)};
+}
+
+// probe start chosen by the harness for the calling thread (IDManager::GetHeartBeater)
+std::thread::id chosen_thread_id();
+void prepare_thread_ids(int n);
+void set_probe_start(int r);
+
 inline void
 fence(std::memory_order mo) noexcept
 {
@@ -261,6 +372,24 @@ vshim_atomic_thread_fence(std::memory_order mo) noexcept
 {
   ::vshim::fence(mo);
 }
+template <class T>
+using vshim_shared_ptr = ::vshim::hb_shared_ptr<T>;
+template <class T>
+using vshim_weak_ptr = ::vshim::hb_weak_ptr<T>;
+template <class T, class... Args>
+inline ::vshim::hb_shared_ptr<T>
+vshim_make_shared(Args &&...args)
+{
+  return ::vshim::hb_make_shared<T>(std::forward<Args>(args)...);
+}
+namespace this_thread
+{
+inline std::thread::id
+vshim_get_id() noexcept
+{
+  return ::vshim::chosen_thread_id();
+}
+}  // namespace this_thread
 }  // namespace std
 
 #ifndef VERIF_SHIM_NO_RENAME
@@ -268,6 +397,12 @@ vshim_atomic_thread_fence(std::memory_order mo) noexcept
 #define atomic_size_t vshim_atomic_size_t
 #define atomic_bool vshim_atomic_bool
 #define atomic_thread_fence vshim_atomic_thread_fence
+#ifdef VERIF_SHIM_HEARTBEAT
+#define shared_ptr vshim_shared_ptr
+#define weak_ptr vshim_weak_ptr
+#define make_shared vshim_make_shared
+#define get_id vshim_get_id
+#endif
 #define private public
 #define protected public
 #endif
